@@ -55,7 +55,8 @@ def unsupported_value(kind):
             "memoryview": memoryview(b"ab"), "ellipsis": Ellipsis}[kind]
 
 
-HANDLER_TABLES = ["none", "user", "date", "tuple", "str", "bool", "user+date", "other", "list", "dict", "int", "mylist", "float"]
+HANDLER_TABLES = ["none", "user", "date", "tuple", "str", "bool", "user+date", "other", "list", "dict", "int", "mylist", "float",
+                  "date-none", "date-zero", "date-empty", "date-false", "date-list"]
 
 
 class Recorder(object):
@@ -65,8 +66,18 @@ class Recorder(object):
     def handler(self, tname):
         def h(obj, serialize_method, ignore_attribute, ignore, config):
             self.calls.append((tname, id(obj), serialize_method, ignore_attribute, list(ignore), config))
-            return {"__handled__": tname, "token": token(obj)}
+            return handler_value(tname, obj)
         return h
+
+
+RETURNS = {"date-none": None, "date-zero": 0, "date-empty": "", "date-false": False, "date-list": []}
+
+
+def handler_value(tname, obj):
+    """What the recording handler for `tname` returns (emitted verbatim): a marked dictionary, or - tables 'date-*' - None / a falsy value."""
+    if tname in RETURNS:
+        return RETURNS[tname]
+    return {"__handled__": tname, "token": token(obj)}
 
 
 def token(obj):
@@ -119,8 +130,8 @@ class Ref(object):
         if type(x) in self.handled:
             tname = self.handled[type(x)]
             self.occurrences[tname] = self.occurrences.get(tname, 0) + 1
-            want = {"__handled__": tname, "token": token(x)}
-            if y != want:
+            want = handler_value(tname, x)
+            if not gen.same(y, want) and y != want or (want is None) != (y is None):
                 return "%s: object of handled type %s dumped as %r, expected the handler's value %r" % (path, tname, y, want)
             return ""
         if x is None or isinstance(x, (bool, int, float, str, bytes)):
@@ -222,7 +233,9 @@ def run_case(case):
 
     if "user" in table:
         add(cls, "user")
-    if "date" in table:
+    if table in RETURNS:
+        add(datetime.date, table)
+    elif "date" in table:
         add(datetime.date, "date")
     if table == "tuple":
         add(tuple, "tuple")
@@ -346,6 +359,9 @@ def cases(tier):
         for table in ("none", "str", "float", "bool", "tuple"):
             for ctx in ("top", "list", "bean-dict"):
                 yield (si, (), (), table, ctx, "defaults", "wide")
+        for table in RETURNS:
+            for ctx in CONTEXTS:
+                yield (si, (), (), table, ctx, "defaults", "date")
 
 
 # -- serialisation method name ------------------------------------------------------------
